@@ -4,6 +4,8 @@ import KyupyVerif.Drv.Stil
 import KyupyVerif.Drv.Def
 import KyupyVerif.Drv.Datasheet
 import KyupyVerif.Drv.Traverse
+import KyupyVerif.Drv.CircObj
+import KyupyVerif.Drv.Netlist
 /-! Stateless driver extensions: each module `KyupyVerif/Drv/<Name>.lean` defines
 `handle : String → List String → Option String` (command word, remaining tokens → answer, or `none`
 when the command is not its own) and is listed in `extHandlers` below. -/
@@ -15,7 +17,9 @@ def extHandlers : List (String → List String → Option String) := [
   KV.Drv.Stil.handle,
   KV.Drv.Def.handle,
   KV.Drv.Datasheet.handle,
-  KV.Drv.Traverse.handle
+  KV.Drv.Traverse.handle,
+  KV.Drv.CircObj.handle,
+  KV.Drv.Netlist.handle
 ]
 
 def tryExt (cmd : String) (args : List String) : Option String :=
